@@ -16,7 +16,11 @@
        (exp(-s T0) -> independent indeterminate w); causal => no t >= 0 condition and zero before t = 0;
        not causal with a unilateral part => the result carries the t >= 0 condition;
        `post_initial_value` / `final_value` against f(0+) / the step coefficients of the returned time function;
-     * each input is inverted again after other inversions and with other option sets in between (cache keyed on options).
+     * each input is inverted again after other inversions and with other option sets in between (cache keyed on options);
+     * cache stage: for s**n times undefined transforms, products with undefined transforms, second-order and delayed
+       rational functions and every option of the cache key, from a cleared cache `first options` then `second options` must
+       give what `second options` gives on an empty cache (both orders); tx_ilt reads the option names and defaults that
+       `key()` uses and that the class reads, theorems `ilt_key_complete`, `ilt_key_defaults_agree` (decide).
 """
 import itertools
 import os
@@ -299,7 +303,8 @@ def run(chk, replay=None):
             with open(gen_path, 'w') as f:
                 f.write(text)
     chk.coverage['translator'] = {'status': 'ok' if not info['unparsed'] else 'partial', 'definitions': len(info['defs']),
-                                  'unparsed': info['unparsed'], 'conjPartnerMustBeSimple': info['flag']}
+                                  'unparsed': info['unparsed'], 'conjPartnerMustBeSimple': info['flag'],
+                                  'keyOptions': info['keyOptions'], 'readOptions': info['readOptions']}
     broken = chk.lean(['Lcapy/Props/C10.lean'],
                       helper_files=['Lcapy/Proofs/Laplace.lean', 'Lcapy/Proofs/LaplaceILT.lean', 'Lcapy/Spec/Signal.lean',
                                     'Lcapy/Model/ExpPoly.lean', 'Lcapy/Model/ILT.lean', 'Lcapy/Generated/ILTFlags.lean', 'Lcapy/Driver/C10.lean',
@@ -575,6 +580,74 @@ def run(chk, replay=None):
                 except Exception as ex:   # noqa
                     chk.count('degenerate', 'limit-error:' + type(ex).__name__)
 
+
+    # ---- cache stage: the memo must separate every option that influences the result.
+    # For each expression and each pair of option sets (a, b): from a CLEARED cache call a then b; the answer to b must be
+    # the answer b gets on an empty cache.  Both orders.  Expressions: s**n times undefined transforms (where
+    # zero_initial_conditions matters), products / quotients with undefined transforms (causal matters: convolution limits),
+    # second-order rational functions (damped_sin, damping, causal matter), delayed terms.
+    CACHE_EXPRS = ['s*V(s)', 's**2*I(s)', '7*s*V(s)', 's**3*V(s)', 'V(s)/(s + 1)', 'V(s)/s', '3*V(s)*exp(-2*s)',
+                   '1/(s**2 + 2*s + 5)', '(s + 3)/(s**2 + 2*s + 5)', '4/((s + 1)*(s + 2))', '1/(s + 2)**2', '5/s',
+                   'exp(-s)/(s**2 + 4*s + 13)', '(s**2 + 1)/(s**2 + 2*s + 5)']
+    CACHE_AXES = [('zero_initial_conditions', True, False), ('causal', False, True), ('damped_sin', False, True),
+                  ('damping', None, 'over'), ('damping', None, 'critical')]
+
+    def cache_kwargs(base, name, val):
+        kw = dict(base)
+        if val is None or (name == 'causal' and not val):
+            kw.pop(name, None)
+        else:
+            kw[name] = val
+        return kw
+
+    def cache_pair(etxt, kwa, kwb, origin):
+        """cleared cache: a then b   versus   cleared cache: b"""
+        try:
+            X = lexpr(etxt)
+        except Exception as ex:   # noqa
+            chk.count('degenerate', 'lcapy-parse:' + type(ex).__name__)
+            return
+        def call(kw):
+            try:
+                return X.inverse_laplace(**kw).sympy
+            except Exception as ex:   # noqa
+                return ('error', type(ex).__name__)
+        ILTr.clear_cache()
+        call(kwa)
+        after = call(kwb)
+        ILTr.clear_cache()
+        fresh = call(kwb)
+        ILTr.clear_cache()
+        differs = sorted(k for k in set(kwa) | set(kwb) if kwa.get(k) != kwb.get(k))
+        chk.case(('cache', etxt, tuple(sorted((k, str(v)) for k, v in kwa.items())), tuple(sorted((k, str(v)) for k, v in kwb.items()))),
+                 not isinstance(fresh, tuple))
+        chk.count('cache-stage', ','.join(differs))
+        same = (after == fresh) if not (isinstance(after, tuple) or isinstance(fresh, tuple)) else (after == fresh)
+        if not same:
+            counterexamples[0] += 1
+            chk.counterexample({'what': 'cache', 'option': ','.join(differs), 'undefined_transform': any(c in etxt for c in ('V(s)', 'I(s)'))},
+                               {'input': {'cache_pair': {'expr': etxt, 'first': kwa, 'second': kwb}},
+                                'lcapy': {'second_after_first': str(after)[:300], 'second_on_empty_cache': str(fresh)[:300]},
+                                'spec': 'the result of inverse_laplace(**second) must not depend on an earlier inverse_laplace(**first) of the same '
+                                        'expression (theorem ilt_key_complete: every option read is part of the cache key)',
+                                'origin': origin},
+                               'inverse Laplace result depends on an earlier call with other options (result cache key)')
+
+    def cache_stage():
+        exprs = list(CACHE_EXPRS)
+        if not quick:
+            exprs += ['%d*s**%d*V(s)' % (rng.randint(2, 9), rng.randint(1, 3)) for _ in range(6)]
+            exprs += [gen.ratfun()['txt'] for _ in range(25)]
+        bases = [{}] if quick else [{}, {'causal': True}, {'zero_initial_conditions': False}, {'damped_sin': True}]
+        for etxt in exprs:
+            for base in bases:
+                for (name, v0, v1) in CACHE_AXES:
+                    kwa, kwb = cache_kwargs(base, name, v0), cache_kwargs(base, name, v1)
+                    if kwa == kwb:
+                        continue
+                    cache_pair(etxt, kwa, kwb, 'cache-stage')
+                    cache_pair(etxt, kwb, kwa, 'cache-stage')
+
     import time
     t0 = time.time()
     if replay:
@@ -583,6 +656,10 @@ def run(chk, replay=None):
         rp = json.load(open(replay if os.path.isabs(replay) else os.path.join(common.VERIF, replay)))
         inp = rp.get('input', {})
         n_funcs = 0
+        if 'cache_pair' in inp:
+            cp = inp['cache_pair']
+            chk.coverage['replayed'] = cp
+            cache_pair(cp['expr'], cp['first'], cp['second'], 'replay')
         if 'terms' in inp:
             terms = []
             for tm in inp['terms']:
@@ -593,6 +670,8 @@ def run(chk, replay=None):
                 terms.append(tm)
             chk.coverage['replayed'] = inp.get('F')
             one_input(terms, 0, forced_opts=inp.get('options'))
+    if not replay:
+        cache_stage()
     for i in range(n_funcs):
         terms = [gen.ratfun()]
         if i % 4 == 3:
